@@ -344,6 +344,8 @@ def _catalogue_shard(arg):
                                 if got is not False:
                                     st.violation("C02/verify_/catalogue-tampered-accepted", {"curve": name, "hf": hfname, "kind": kind, "bindings": serving}, got, False)
                             rsig, kid = dsa.sign_recoverable_(mh, q, None, low, ec, hf)
+                            if (rsig.r, rsig.s) != exp:
+                                st.violation("C02/sign_recoverable_/catalogue-not-rfc6979", {"curve": name, "hf": hfname, "q": hex(q), "low": low, "bindings": serving}, (hex(rsig.r)[:14], hex(rsig.s)[:14]), (hex(exp[0])[:14], hex(exp[1])[:14]))
                             if dsa.recover_pub_key_(kid, mh, rsig, hf) != Q:
                                 st.violation("C02/recover_pub_key_/catalogue", {"curve": name, "hf": hfname, "q": hex(q), "low": low, "bindings": serving}, "wrong key", "signer")
                         # grinding: low r, and equal to the model's counter search
